@@ -262,6 +262,7 @@ def report(mod, prop, tier, seed, cases, results, problems, wall, write_evidence
     inconclusive = list(problems)
     obs = collections.Counter()
     sigs = set()
+    fingerprints = set()          # optional per-case fingerprint of what was observed (e.g. hash of the bus order): distinct executions seen
     nontrivial_sigs = set()
     samples = []
     stalled = 0
@@ -288,6 +289,8 @@ def report(mod, prop, tier, seed, cases, results, problems, wall, write_evidence
                 else:
                     obs[k] += v
         sigs.add(r.get('sig'))
+        if r.get('fingerprint') is not None:
+            fingerprints.add(r['fingerprint'])
         if r.get('nontrivial'):
             nontrivial_sigs.add(r.get('sig'))
         if r.get('sample') is not None and len(samples) < 4 and r.get('nontrivial'):
@@ -348,6 +351,8 @@ def report(mod, prop, tier, seed, cases, results, problems, wall, write_evidence
                    samples=samples, distinct_signatures=len(sigs), monitor_counters=dict(sorted(obs.items())),
                    known_finding_hits={k: v['n'] for k, v in known_hits.items()}, inconclusive=inconclusive[:10],
                    workers_stalled=stalled)
+        if fingerprints:
+            cov['distinct_observed_executions'] = len(fingerprints)
         extra = getattr(mod, 'coverage', None)
         if extra:
             try:
